@@ -11,6 +11,7 @@ import (
 	"runtime"
 	"sort"
 	"strings"
+	"sync"
 	"time"
 
 	"golang.org/x/tools/go/packages"
@@ -140,6 +141,8 @@ func main() {
 	switch os.Args[1] {
 	case "run":
 		os.Exit(cmdRun(os.Args[2:]))
+	case "tracepath":
+		os.Exit(cmdTracePath(os.Args[2:]))
 	default:
 		fmt.Fprintln(os.Stderr, "unknown command")
 		os.Exit(2)
@@ -257,4 +260,60 @@ func cmdRun(args []string) int {
 		}
 	}
 	return report(&cfg, *tier, seed, results, hcfgs, inconclusive, loadS, time.Since(t0).Seconds(), *noReplay)
+}
+
+
+// cmdTracePath re-executes the single path of a recorded counterexample with call/log tracing.
+func cmdTracePath(args []string) int {
+	fs := flag.NewFlagSet("tracepath", flag.ExitOnError)
+	prop := fs.String("prop", "", "property id")
+	file := fs.String("file", "", "counterexample json")
+	tier := fs.String("tier", "quick", "tier the counterexample came from")
+	fs.Parse(args)
+	var cfg PropCfg
+	b, _ := os.ReadFile(filepath.Join(verifDir, "props", *prop+".json"))
+	if err := json.Unmarshal(b, &cfg); err != nil {
+		fmt.Println(err)
+		return 3
+	}
+	var cex CounterEx
+	b, _ = os.ReadFile(*file)
+	if err := json.Unmarshal(b, &cex); err != nil {
+		fmt.Println(err)
+		return 3
+	}
+	for _, ph := range cfg.Harnesses {
+		if ph.Name != baseHarnessName(cex.Harness) {
+			continue
+		}
+		prog, _, err := loadProgram([]string{ph.Pkg})
+		if err != nil {
+			fmt.Println(err)
+			return 3
+		}
+		eng := newEngine(prog)
+		eng.workers = 1
+		eng.traceOn = true
+		fn := eng.pkgByPath[ph.Pkg].Func(ph.Func)
+		h := &Harness{HarnessCfg: HarnessCfg{Name: cex.Harness, Pkg: ph.Pkg, Func: ph.Func, Params: cex.Params, MaxPaths: 1, MaxSteps: 5000000, SelectChoice: ph.SelectChoice}, Fn: fn}
+		if ph.Arith == "int" {
+			h.Arith = ModeInt
+		}
+		_ = tier
+		res := &HarnessResult{Name: h.Name, Unsupported: map[string]int64{}, Asserts: map[string]*AssertStat{}, Reached: map[string]int64{}, Funcs: map[string]bool{}, Stubs: map[string]int64{}}
+		var mu sync.Mutex
+		sk := ph.Solver
+		if sk == "" {
+			sk = "z3"
+		}
+		sol := NewSolver(sk, h.Arith, 20*time.Second)
+		eng.runPath(h, workItem{prefix: cex.Decisions}, sol, res, &mu)
+		os.WriteFile("/tmp/tracepath.smt2", []byte(strings.Join(sol.script, "\n")+"\n(check-sat)\n"), 0o644)
+		for id, st := range res.Asserts {
+			fmt.Printf("assert %s: checked=%d violated=%d\n", id, st.Checked, st.Violated)
+		}
+		fmt.Println("unsupported:", res.Unsupported)
+		return 0
+	}
+	return 3
 }
